@@ -108,6 +108,11 @@ func loadCtx(repo, tier string, extraEnv []string, buildFlags []string) (*Ctx, e
 		return nil, err
 	}
 	c.Renamed = notes
+	inotes, err := inlineTrivial(map[string]*packages.Package{pathRoot: c.Root, pathW: c.W, pathCmd: c.Cmd})
+	if err != nil {
+		return nil, err
+	}
+	c.Renamed = append(c.Renamed, inotes...)
 	snotes, err := specialise(map[string]*packages.Package{pathRoot: c.Root, pathW: c.W, pathCmd: c.Cmd})
 	if err != nil {
 		return nil, err
